@@ -24,6 +24,7 @@ type ClientServerStream struct {
 	trailer    metadata.MD
 	closed     context.CancelFunc
 	closeErr   error
+	closedC    chan struct{} // closed by Close, once closeErr has been set
 }
 
 func NewClientServerStream(ctx context.Context) *ClientServerStream {
@@ -32,6 +33,7 @@ func NewClientServerStream(ctx context.Context) *ClientServerStream {
 		ctx:        newCtx,
 		closed:     closed,
 		headerC:    make(chan struct{}),
+		closedC:    make(chan struct{}),
 		serverSend: make(chan any),
 		clientSend: make(chan any),
 	}
@@ -44,6 +46,7 @@ func (s *ClientServerStream) Close(err error) {
 		// unless the client has already gone away
 		(&serverStream{s}).sendHeaderIfNeeded()
 	}
+	close(s.closedC)
 	close(s.serverSend)
 	s.closed()
 }
@@ -54,6 +57,18 @@ func (s *ClientServerStream) closeErrLocked() error {
 		return io.EOF
 	}
 	return s.closeErr
+}
+
+// doneErr is the error for an operation abandoned because the stream's context has ended:
+// the close error (or io.EOF) if the handler has finished, otherwise the reason the calling
+// context ended (cancelled, deadline exceeded), as RecvMsg on the client side reports it.
+func (s *ClientServerStream) doneErr() error {
+	select {
+	case <-s.closedC:
+		return s.closeErrLocked()
+	default:
+		return s.ctx.Err()
+	}
 }
 
 func (s *ClientServerStream) Client() grpc.ClientStream {
@@ -100,7 +115,7 @@ func (c *clientStream) Context() context.Context {
 func (c *clientStream) SendMsg(m any) error {
 	select {
 	case <-c.ctx.Done():
-		return c.closeErrLocked()
+		return c.doneErr()
 	case c.clientSend <- m:
 		return nil
 	}
@@ -175,7 +190,7 @@ func (s *serverStream) SendMsg(m any) error {
 	s.sendHeaderIfNeeded()
 	select {
 	case <-s.ctx.Done():
-		return s.closeErrLocked()
+		return s.doneErr()
 	case s.serverSend <- m:
 		return nil
 	}
@@ -184,7 +199,7 @@ func (s *serverStream) SendMsg(m any) error {
 func (s *serverStream) RecvMsg(m any) error {
 	select {
 	case <-s.Context().Done():
-		return s.closeErrLocked()
+		return s.doneErr()
 	case val, ok := <-s.clientSend:
 		if !ok {
 			return io.EOF
